@@ -1,6 +1,12 @@
 # Registered checks: property -> engines and budgets per tier.
 # batches x runs = simulated cases of the plain binary; race_* = the same engine in the -race binary.
 CHECKS = {
+    "C17": dict(engines=["c17"], level="exploration",
+                quick=dict(batches=16, runs=150, timeout=900),
+                thorough=dict(batches=64, runs=3000, timeout=3000)),
+    "C15": dict(engines=["c15"], level="exploration",
+                quick=dict(batches=16, runs=300, timeout=900),
+                thorough=dict(batches=64, runs=6000, timeout=3000)),
     "C04": dict(engines=["c04hist", "c04map", "c04lin"], level="exploration", race_engines=["c04lin"],
                 quick=dict(batches=16, runs=200, race_batches=4, race_runs=40, timeout=900),
                 thorough=dict(batches=64, runs=4000, race_batches=16, race_runs=400, timeout=3000)),
@@ -51,6 +57,21 @@ HIST_NOTE = ("Quantifier 'histories': the system under simulation is the long-li
              "shrinks. Histories of bounded length over trees of bounded size are sampled, not enumerated. A step that fails (error, panic, os.Exit) poisons the state and is "
              "only counted: the statement speaks of operations that report success.")
 TEXTS = {
+    "C15": dict(
+        level_text="Seeded two-party histories: a copy made by Clone() or SubTree(n), then 1..20 editing steps each applied to the original or to the copy; at copy time the clone's "
+                   "text (with comments) and API snapshot must equal the original's; after every step, successful or not, text and snapshot of the untouched party must be "
+                   "unchanged; after every successful graft / merge / InsertIdenticalTips / RemoveSingleNodes / SubTree / Clone step the reference-model distance matrix "
+                   "restricted to pre-existing tips is unchanged, exactly the requested tips were added and identical tips are at distance 0. Sampling: evidence, not proof.",
+        design_ref="§4 C15", level_note=HIST_NOTE + " The distance oracle is evaluated only when every branch has a length or none has (path lengths are undefined otherwise).",
+        technique="deterministic simulation: seeded two-party operation histories with an independence invariant and a reference-model distance oracle after every step"),
+    "C17": dict(
+        level_text="Seeded histories of root moves (re-rooting at inner nodes, outgroup, midpoint, unroot, rotations) on binary trees of 4..14 tips, then the NNI enumeration with a "
+                   "drawn pattern of Apply / repeated Apply / Undo / repeated Undo inside the callback; per proposal: structural checker, same tips, exactly one split out and "
+                   "one in, pairwise distinct neighbours, byte-identical text after Undo and after the enumeration, two proposals per enumerated branch (each inner split "
+                   "removed exactly twice), 2(n-3) proposals on unrooted trees. Sampling: evidence, not proof.",
+        design_ref="§4 C17", level_note=HIST_NOTE + " For rooted trees the count is checked per branch whose two ends have three neighbours; the statement does not say whether "
+                   "the branch straddling the root counts, so nothing more is demanded there.",
+        technique="deterministic simulation: seeded root-move and apply/undo histories on a live tree with split-set and text invariants per step"),
     "C03": dict(
         level_text="Seeded operation histories (1..30 steps over 33 public editing operations with state-relative arguments, PRNG seam seeded per step) on one live tree; after "
                    "every successful step an own structural checker over the public traversal API (connected, acyclic, symmetric adjacency with the same branch object, "
